@@ -280,6 +280,7 @@ func ztpCorpus(rng *rand.Rand) (v4 [][]byte, v6 [][]byte) {
 	// (the generators of the extended conformance), in every place the extractors read them from
 	all := append([]string{}, ztpStrings...)
 	all = append(all, ciscoVIVCFields...)
+	all = append(all, ztpSystematic()...)
 	for k := 0; k < 60; k++ {
 		all = append(all, ztpString(rng, k%2 == 0), circuitString(rng))
 	}
